@@ -40,3 +40,8 @@ def assume_model_queries(reg):
                  assumed=True, source='verified under C11 (depends on root_names/options, which no caller under contract modifies)')
     reg.contract(M, 'Documentable.isVisible', returns='Bool', pure=True, reads=['name', 'parent', 'kind'], raises={},
                  assumed=True, source='verified under C12/C13 (depends on --privacy options, never modified after parsing)')
+
+
+def register_system_shapes(reg):
+    reg.shape('System', {'options': 'Ref[Options]', '_privacyClassCache': 'Map[Str,Enum[PrivacyClass]]'})
+    reg.shape('Options', {'privacy': 'Seq[Tuple[Enum[PrivacyClass],Str]]'})
